@@ -5,6 +5,7 @@ pub mod c08;
 pub mod c15;
 pub mod c16;
 pub mod c17;
+pub mod c18;
 pub mod c19;
 pub mod c04;
 pub mod c05;
@@ -39,6 +40,7 @@ pub fn dispatch(args: &Args, rep: &Arc<Report>) -> bool {
         "c13" => c13::run(args, rep),
         "c16" => c16::run(args, rep),
         "c17" => c17::run(args, rep),
+        "c18" => c18::run(args, rep),
         "c19" => c19::run(args, rep),
         "dump" => dump(args),
         _ => return false,
